@@ -228,6 +228,15 @@ def build_registry(darsia, rng):
     add("stack_series_then_series", [sts, ser_a, ser_b], lambda: darsia.stack(sts))
     host, guest = img2(shp), img2(shp)
     add("append_argument", [guest], lambda: host.append(guest))
+    # a list of dated images that is not in chronological order (refused by append): the list stays as the caller built it
+    from datetime import datetime as _dt, timedelta as _td
+
+    dated = []
+    for q_, sec_ in enumerate((30, 10, 20)):
+        d_ = img2(shp)
+        d_.date = _dt(2023, 5, 6, 7, 8, 9) + _td(seconds=sec_)
+        dated.append(d_)
+    add("stack_dated_images_out_of_order", [dated, dated[0], dated[1], dated[2]], lambda: darsia.stack(dated))
     # ---- resizing / reduction
     tgt = (max(1, shp[0] // 2), max(1, shp[1] // 2))
     add("Resize_image", [A], lambda: darsia.Resize(shape=tgt, interpolation="inter_area")(A))
@@ -261,6 +270,12 @@ def build_registry(darsia, rng):
         return first_, m_(arr2), m_(arr2)
 
     add("linear_array_after_update_to_unit_scaling", [arr2], _lin_updated)
+    # an output the caller kept from an earlier evaluation of a label-wise model stays what it was when the model is
+    # evaluated again on a signal of the same format
+    hl_lab = (np.arange(arr2.size).reshape(arr2.shape) % 3).astype(np.uint8)
+    hl_model = darsia.HeterogeneousLinearModel(hl_lab, scaling=np.array([1.0, 2.0, 3.0]), offset=np.array([0.0, 0.1, 0.2]))
+    hl_kept = hl_model(arr2.copy())
+    add("labelwise_linear_evaluated_again", [hl_kept, arr2], lambda: (hl_model(arr2 * 0.5), hl_model(hl_kept)))
     add("combined_array", [arr2], lambda: darsia.CombinedModel([darsia.LinearModel(scaling=2.0, offset=0.1), darsia.ClipModel(**{"min value": 0.3, "max value": 1.5})])(arr2))
     add("threshold_array", [arr2], lambda: darsia.StaticThresholdModel(0.3, 0.8)(arr2))
     msk = arr2 > 0.2
